@@ -14,6 +14,14 @@
 (*        eq      pairs of construction recipes: == / != / hash / bool and *)
 (*                data normalisation from index tuples;                    *)
 (*        sym     pairs of multivectors with symbolic coefficients;        *)
+(*        homog   multi-term homogeneous multivectors (2..4 basis blades   *)
+(*                of one grade, every grade) -- among them the vectors and *)
+(*                pseudovectors, which are always blades: the unary        *)
+(*                observations, and the inverse law on whatever inv()      *)
+(*                answers (emitted as "unary" cases);                      *)
+(*        symeq   pairs of construction recipes whose coefficients are     *)
+(*                expression trees (Variable / Sum / Product / numbers):   *)
+(*                == / != / hash / bool against tree-wise comparison;      *)
 (*  (b) checks the property on the model: the Clifford axioms on the       *)
 (*      M-layer (C18_Clifford) and "the bitmap algorithm (C18_Bitmap)      *)
 (*      refines the meaning" on every generated case;                      *)
@@ -53,6 +61,8 @@ Spread(gg) == SpreadFrom(gg, 1) % 8
 
 DimsFor(kd) ==
     CASE kd \in {"pair", "triple", "unary"} -> 0..TopN
+      [] kd = "homog" -> 2..TopN
+      [] kd = "symeq" -> 2..Min2(MaxN, 3)
       [] kd = "bilin" -> 2..Min2(MaxN, IF Tier = "quick" THEN 3 ELSE 4)
       [] kd = "eq"    -> 0..Min2(MaxN, 3)
       [] kd = "sym"   -> 2..Min2(MaxN, 3)
@@ -65,10 +75,16 @@ MetricsFor(kd, nn) ==
                           ELSE Metrics5Few
       [] kd = "bilin"  -> SmallMetrics(nn)
       [] kd = "sym"    -> SmallMetrics(nn)
+      [] kd = "homog"  -> IF nn <= 3 THEN Metrics(nn)
+                          ELSE IF nn = 4 THEN (IF Tier = "quick" THEN { gg \in Metrics(4) : Spread(gg) = 0 }
+                                               ELSE Metrics(4))
+                          ELSE Metrics5Few
+      [] kd = "symeq"  -> IF nn = 2 THEN { << 1, -1 >> } ELSE { << 1, 1, 1 >>, << 0, 2, -1 >> }
       [] kd = "eq"     -> IF nn = 0 THEN { << >> } ELSE IF nn = 1 THEN { << -1 >> }
                           ELSE IF nn = 2 THEN { << 1, -1 >> } ELSE { << 1, 1, 1 >>, << 0, 2, -1 >> }
 Arity(kd) == CASE kd = "pair" -> 3 [] kd = "triple" -> 3 [] kd = "unary" -> 1
                [] kd = "bilin" -> 4 [] kd = "eq" -> 3 [] kd = "sym" -> 2
+               [] kd = "homog" -> 1 [] kd = "symeq" -> 2
 
 (* pools of multi-term multivectors (term lists) *)
 Multi(nn) ==
@@ -185,6 +201,59 @@ SymPool(nn) ==
       << T(<< >>, L3(0, 0, -1)), T(<< 3 >>, L3(1, -1, 0)), T(<< 1, 2 >>, L3(0, 2, 1)), T(<< 1, 2, 3 >>, L3(1, 0, 0)) >> }
 SymPts == << << I(2), I(-3) >>, << F(1, 2), I(5) >>, << I(0), F(-2, 3) >> >>
 
+(* multi-term homogeneous multivectors: every set of 2..3 (4 in the thorough *)
+(* tier, dimensions <= 4) basis blades of one grade, for every grade, with   *)
+(* two coefficient patterns (Fractions, so that divisions stay exact).       *)
+(* Grade 1 and grade n-1 elements are always blades; the others mostly are   *)
+(* not (inv() may refuse them; what it answers is judged).                   *)
+HomCoefs == { << F(3, 1), F(-2, 1), F(5, 1), F(1, 1) >>, << I(1), F(-1, 2), F(2, 1), F(2, 3) >> }
+HomSizes(nn) == IF Tier = "thorough" /\ nn <= 4 THEN {2, 3, 4} ELSE {2, 3}
+BladesOfGrade(nn, r) == { b \in Blades(nn) : Len(b) = r }
+HomTerms(nn, S, cs) ==
+    LET sq == SelectSeq(BladeSeq(nn), LAMBDA b : b \in S)
+    IN  [i \in 1..Len(sq) |-> T(sq[i], cs[i])]
+HomogPool(nn) ==
+    UNION { { HomTerms(nn, S, cs) :
+                S \in { S0 \in SUBSET BladesOfGrade(nn, r) : Cardinality(S0) \in HomSizes(nn) },
+                cs \in HomCoefs } : r \in 0..nn }
+
+(* construction recipes with symbolic coefficients (symeq): a coefficient is *)
+(* an expression tree (see C18_Clifford); via "b" bitmap-keyed dict, "t"     *)
+(* index-tuple keys (increasing words), "s" MultiVector(expression, space).  *)
+(* Every recipe is built twice, separately, by the driver (case (a, a)): the *)
+(* twin must be equal to the original and hash like it.                      *)
+Num(q) == [k |-> "num", q |-> q, nm |-> "", a |-> << >>]
+Var(s) == [k |-> "var", q |-> I(0), nm |-> s, a |-> << >>]
+SumT(ar) == [k |-> "sum", q |-> I(0), nm |-> "", a |-> ar]
+ProdT(ar) == [k |-> "prod", q |-> I(0), nm |-> "", a |-> ar]
+X == Var("x")
+Y == Var("y")
+TRc(via, ts) == [via |-> via, ts |-> ts]
+SymEqPool(nn) ==
+    { TRc("b", << T(<< 1 >>, X) >>),
+      TRc("t", << T(<< 1 >>, X) >>),
+      TRc("b", << T(<< 1 >>, Y) >>),
+      TRc("b", << T(<< 1 >>, Num(I(3))) >>),
+      TRc("b", << T(<< 1, 2 >>, X) >>),
+      TRc("b", << T(<< 1 >>, X), T(<< 1, 2 >>, Num(I(3))) >>),
+      TRc("t", << T(<< 1 >>, Y), T(<< 1, 2 >>, Num(I(3))) >>),
+      TRc("b", << T(<< 1 >>, SumT(<< X, Y >>)), T(<< 1, 2 >>, ProdT(<< X, Y >>)) >>),
+      TRc("b", << T(<< 1 >>, SumT(<< X, Y >>)), T(<< 1, 2 >>, ProdT(<< Y, X >>)) >>),
+      TRc("t", << T(<< 1 >>, SumT(<< Y, X >>)), T(<< 1, 2 >>, ProdT(<< X, Y >>)) >>),
+      TRc("b", << T(<< >>, ProdT(<< Num(I(2)), X >>)), T(<< 2 >>, Num(F(1, 2))) >>),
+      TRc("b", << T(<< >>, ProdT(<< Num(F(2, 1)), X >>)), T(<< 2 >>, Num(F(1, 2))) >>),
+      TRc("s", << T(<< >>, X) >>),
+      TRc("b", << T(<< >>, X) >>),
+      TRc("s", << T(<< >>, SumT(<< ProdT(<< Num(I(2)), X >>), Num(I(1)) >>)) >>),
+      TRc("b", << T(<< 2 >>, SumT(<< X, X >>)) >>),
+      TRc("b", << T(<< 2 >>, ProdT(<< Num(I(2)), X >>)) >>),
+      TRc("b", << T(<< 1 >>, SumT(<< ProdT(<< Num(I(2)), X >>), Num(I(1)) >>)), T(<< 2 >>, Y) >>) }
+    \cup (IF nn < 3 THEN {} ELSE
+    { TRc("b", << T(<< 1, 3 >>, X), T(<< 1, 2, 3 >>, SumT(<< X, Num(I(1)) >>)) >>),
+      TRc("t", << T(<< 1, 3 >>, X), T(<< 1, 2, 3 >>, SumT(<< X, Num(F(1, 1)) >>)) >>),
+      TRc("b", << T(<< 1, 3 >>, X), T(<< 1, 2, 3 >>, SumT(<< X, Num(I(-1)) >>)) >>),
+      TRc("b", << T(<< 3 >>, ProdT(<< X, SumT(<< Y, Num(I(1)) >>) >>)), T(<< 2, 3 >>, Num(F(-2, 3))) >>) })
+
 PairCoefs(nn) == IF nn <= 3 \/ (Tier = "thorough" /\ nn = 4)
                  THEN { << I(2), I(-3) >>, << F(3, 2), F(-2, 3) >> }
                  ELSE { << I(2), I(-3) >> }
@@ -195,6 +264,8 @@ Pool(kd, nn, pos) ==
       [] kd = "unary"  -> UnaryPool(nn)
       [] kd = "bilin"  -> IF pos <= 3 THEN BilinPool(nn, pos) ELSE Scalars2
       [] kd = "sym"    -> SymPool(nn)
+      [] kd = "homog"  -> HomogPool(nn)
+      [] kd = "symeq"  -> SymEqPool(nn)
       [] kd = "eq"     -> IF pos <= 2 THEN RecipePool(nn)
                           ELSE IF pos = 3 /\ args[1].via \in {"t", "b"} /\ args[2].via \in {"t", "b"}
                                THEN {0, 1} ELSE {0}
@@ -241,6 +312,9 @@ Case ==
                              xs |-> args[3]]
       [] kind = "sym"    -> [k |-> kind, n |-> n, g |-> g, a |-> args[1], b |-> args[2],
                              pts |-> SymPts]
+      [] kind = "homog"  -> [k |-> "unary", n |-> n, g |-> g, a |-> args[1]]
+      [] kind = "symeq"  -> [k |-> kind, n |-> n, g |-> g, ra |-> args[1], rb |-> args[2],
+                             pts |-> SymPts]
 Emit == Complete => PrintT(ToJson(Case))
 
 (************************ the property on the model ************************)
@@ -283,8 +357,15 @@ TripleModel ==
         /\ P("rc", A, P("out", B, C)) = P("rc", P("rc", A, B), C)
         /\ ImplProd("geo", ImplProd("geo", A, B, g), C, g) = P("geo", P("geo", A, B), C)
 
+\* X is a two-sided inverse of M (undecided when a product leaves the guarded rationals)
+IsInverseG(x, a, gg) ==
+    LET p1 == MVProd("geo", x, a, gg)
+        p2 == MVProd("geo", a, x, gg)
+    IN  MVBad(p1) \/ MVBad(p2) \/ (p1 = MVOne /\ p2 = MVOne)
 UnaryModel ==
-    LET M == MVOfTerms(args[1], g) IN
+    LET M == MVOfTerms(args[1], g)
+        R == ImplInv(M, n, g)
+    IN
     MVBad(M) \/
     /\ MVRev(MVRev(M)) = M /\ MVInvol(MVInvol(M)) = M
     /\ ImplRev(M) = MVRev(M) /\ ImplInvol(M) = MVInvol(M)
@@ -293,12 +374,33 @@ UnaryModel ==
     \* two definitions of the dual agree
     /\ MVProd("lc", M, MVRev(MVPseudo(n)), g) = MVDual(M, n, g)
     /\ MVProd("inn", M, MVRev(MVPseudo(n)), g) = MVDual(M, n, g)
+    \* whenever rev(A) A is a non-zero scalar, rev(A) / (rev(A) A) is the inverse
+    /\ (RevProdScalar(M, g) /\ NonNull(M, g) /\ ~MVBad(MVInv(M, g))) =>
+          IsInverseG(MVInv(M, g), M, g)
+    \* vectors and pseudovectors are blades, however many terms they are written with
+    /\ (Grades(M) \subseteq {1} \/ Grades(M) \subseteq {n - 1}) => RevProdScalar(M, g)
+    \* whatever inv() answers is a two-sided inverse (it may refuse)
+    /\ (R.ok /\ ~MVBad(R.v)) => IsInverseG(R.v, M, g)
     /\ (IsMonomial(M) \/ IsVector(M)) =>
           /\ RevProdScalar(M, g)
           /\ (NonNull(M, g) /\ ~MVBad(MVInv(M, g))) =>
                 /\ IsInverse(MVInv(M, g), M, g)
+                /\ R.ok /\ R.v = MVInv(M, g)
                 /\ IsMonomial(M) => ImplInvMono(M, g) = MVInv(M, g)
                 /\ (~IsMonomial(M)) => ImplInvPure(M, g) = MVInv(M, g)
+
+\* dict equality refines tree-wise coefficient comparison; tree-wise equal
+\* multivectors denote the same rational multivector at every point
+SymEqModel ==
+    LET ta == args[1].ts
+        tb == args[2].ts
+        same == TMV(ta) = TMV(tb)
+    IN  /\ TWellFormed(ta, n) /\ TWellFormed(tb, n)
+        /\ ImplEq(ta, tb) = same
+        /\ ImplEq(ta, ta) /\ ImplEq(tb, tb)
+        /\ same => \A j \in 1..Len(SymPts) :
+                      LET p == << QOf(SymPts[j][1]), QOf(SymPts[j][2]) >>
+                      IN  EvalTMV(ta, p) = EvalTMV(tb, p)
 
 BilinModel ==
     LET A == MVOfTerms(args[1], g)
@@ -322,6 +424,8 @@ ModelHolds ==
       CASE kind = "pair"   -> PairModel
         [] kind = "triple" -> TripleModel
         [] kind = "unary"  -> UnaryModel
+        [] kind = "homog"  -> UnaryModel
+        [] kind = "symeq"  -> SymEqModel
         [] kind = "bilin"  -> BilinModel
         [] OTHER -> TRUE
 =============================================================================
